@@ -21,7 +21,7 @@ Property oracle on the real code alone (ctx.violation), for every operation on a
 """
 import os, sqlite3, json, itertools
 
-from pony.orm import Database, Required, Optional, Set, PrimaryKey, db_session, commit, rollback, flush
+from pony.orm import Database, Required, Optional, Set, PrimaryKey, Json, db_session, commit, rollback, flush
 from pony.orm import core
 from tracing import Tracer, Fault
 import ponyutil
@@ -43,23 +43,31 @@ class Env(object):
             a = Required(int)
             b = Optional(int)
             lz = Optional(int, lazy=True)
+            data = Optional(Json, nullable=True)
             items = Set('I')
             tags = Set('T')
+            one = Optional('O', cascade_delete=True)                # one-to-one, the column is on the other side
+        class S(G):                            # G has a subclass: references to G must learn the real class of their target
+            extra = Optional(int)
+        class O(db.Entity):
+            g = Required(G)
         class I(db.Entity):
             g = Required(G)
             w = Optional(int)
         class T(db.Entity):
             n = Required(int)
             gs = Set(G)
-        self.G, self.I, self.T = G, I, T
+        self.G, self.I, self.T, self.S, self.O = G, I, T, S, O
+        self.atoms = {}
         @db.on_connect(provider='sqlite')
         def fast(db, connection): connection.execute('pragma synchronous = off')     # Pony's own hook for connection set-up; speed only
         db.bind('sqlite', path, create_db=True, **self.tr.bind_kwargs(timeout=0.05))     # short busy timeout: the 'database is locked' ending
         db.generate_mapping(create_tables=True)
-        self.entities = [G, I, T]
+        self.entities = [G, I, T, S, O]
         self.attrs = []             # all attributes, model id = position
         for e in self.entities:
-            for a in e._attrs_: self.attrs.append(a)
+            for a in e._attrs_:
+                if a not in self.attrs: self.attrs.append(a)
         self.aid = {a: i for i, a in enumerate(self.attrs)}
         self.raw = sqlite3.connect(path, isolation_level=None, timeout=0.05)
         self.raw.execute('pragma synchronous = off')
@@ -77,10 +85,12 @@ class Env(object):
         raw.execute('begin')
         for t in self.tables: raw.execute('delete from "%s"' % t)
         raw.execute('delete from sqlite_sequence')
-        raw.execute('insert into "G" (id, a, b, lz) values (1, 10, 11, 12), (2, 20, NULL, NULL), (3, 30, 31, NULL)')
+        raw.execute('''insert into "G" (id, classtype, a, b, lz, data, extra) values (1, 'G', 10, 11, 12, '{"k": 1}', NULL),
+                       (2, 'G', 20, NULL, NULL, NULL, NULL), (3, 'S', 30, 31, NULL, NULL, 7)''')
+        raw.execute('insert into "O" (id, g) values (1, 1)')
         raw.execute('insert into "I" (id, g, w) values (1, 1, 5), (2, 1, NULL), (3, 3, 6)')
         raw.execute('insert into "T" (id, n) values (1, 100), (2, 200)')
-        link = [t for t in self.tables if t not in ('G', 'I', 'T')][0]
+        link = [t for t in self.tables if t not in ('G', 'I', 'T', 'O')][0]
         cols = [r[1] for r in raw.execute('pragma table_info("%s")' % link)]
         raw.execute('insert into "%s" (%s) values (?, ?), (?, ?)' % (link, ', '.join('"%s"' % c for c in cols)),
                     self._link_row(cols, 1, 1) + self._link_row(cols, 3, 2))
@@ -101,9 +111,16 @@ class Env(object):
         rev = a.reverse
         ent = self.entities.index(a.entity)
         return {'id': self.aid[a], 'ent': ent, 'kind': 'coll' if a.is_collection else ('ref' if rev else 'scalar'),
-                'pk': a.pk_offset is not None, 'lazy': bool(a.lazy), 'bit': a.entity._bits_except_volatile_[a],
+                'pk': a.pk_offset is not None, 'lazy': bool(a.lazy), 'bit': 0 if a.is_discriminator else a.entity._bits_except_volatile_[a],
                 'rev': self.aid[rev] if rev else 0, 'revColl': bool(rev and rev.is_collection), 'revPk': bool(rev and rev.pk_offset is not None),
-                'revBit': rev.entity._bits_except_volatile_[rev] if rev else 0}
+                'revBit': rev.entity._bits_except_volatile_[rev] if rev else 0,
+                'refSub': bool(rev and not a.is_collection and a.py_type._subclasses_)}
+
+    def atom(self, v):
+        """non-integer scalar values (strings, Json documents) as integers: the model only needs their identity"""
+        key = json.dumps(v, sort_keys=True, default=repr)
+        if key not in self.atoms: self.atoms[key] = 100000 + len(self.atoms)
+        return self.atoms[key]
 
     def close(self):
         try: self.db.disconnect()
@@ -146,6 +163,13 @@ def s_cancelled(E):
     n = E.G(a=5); n.delete()
 def s_cancelled_conn(E):
     E.G[1]; n = E.G(a=5); E.I(g=n); n.delete()
+def s_json(E): E.G[1].data; E.G[2].data
+def s_json_modified(E): E.G[1].data['k'] = 2
+def s_one(E):
+    g = E.G[1]; g.one; E.O[1].g; E.G[2].one
+def s_subclass(E):
+    E.G[3].extra; E.I[3].g; E.I[1]                      # G[3] is an S; I[1].g stays a seed of an entity with subclasses
+def s_seed_raw(E): E.I(g=1, w=2); E.O(g=2)            # references given by raw key: seeds, and no connection unless the session commits
 def s_failed_flush(E):
     g = E.G[2]; g.items.load(); E.I(id=1, g=g)                   # then flush(): the INSERT collides with the row I[1], the session fails inside flush()
 
@@ -153,6 +177,7 @@ SCRIPTS = [('loaded_min', s_loaded_min), ('seed', s_seed), ('partial', s_partial
            ('is_empty', s_is_empty), ('absent', s_absent), ('m2m_reverse', s_m2m_reverse), ('lazy', s_lazy), ('read', s_read),
            ('modified', s_modified), ('rel_modified', s_rel_modified), ('created', s_created), ('created_graph', s_created_graph),
            ('delete', s_delete), ('delete_cascade', s_delete_cascade), ('cancelled', s_cancelled), ('cancelled_conn', s_cancelled_conn),
+           ('json', s_json), ('json_modified', s_json_modified), ('one', s_one), ('subclass', s_subclass), ('seed_raw', s_seed_raw),
            ('failed_flush', s_failed_flush)]
 # how the session ends:  commit (normal exit) / rollback() / exception in the body /
 #   commit_fault: the COMMIT at the exit raises (fault injected into the recording connection) -> SessionCache.commit's except path
@@ -191,7 +216,7 @@ class Run(object):
             f = lambda s: None if s is None else sorted(self.idx(x) for x in s)
             return {'items': sorted(self.idx(x) for x in v), 'full': bool(v.is_fully_loaded), 'count': v.count,
                     'added': f(v.added), 'removed': f(v.removed), 'absent': f(v.absent)}
-        if isinstance(v, bool) or not isinstance(v, int): raise TypeError('unexpected value %r' % (v,))
+        if isinstance(v, bool) or not isinstance(v, int): return self.E.atom(v if not hasattr(v, 'get_untracked') else v.get_untracked())
         return v
 
     def snap_obj(self, o):
@@ -200,7 +225,11 @@ class Run(object):
         return {'ent': self.E.entities.index(type(o)), 'status': o._status_, 'cache': o._session_cache_ is not None,
                 'vals': None if vals is None else sorted([aid[a], self.val(v)] for a, v in vals.items()),
                 'dbvals': None if dbvals is None else sorted([aid[a], self.val(v)] for a, v in dbvals.items()),
-                'rbits': o._rbits_, 'wbits': o._wbits_, 'savePos': o._save_pos_}
+                'rbits': o._rbits_, 'wbits': o._wbits_, 'savePos': o._save_pos_, 'seed': self.is_seed(o)}
+
+    def is_seed(self, o):
+        seeds = self.cache.seeds
+        return bool(seeds is not None and o in seeds.get(type(o)._pk_attrs_, ()))
 
     def snapshot(self):
         c = self.cache
@@ -277,9 +306,12 @@ def ops_for(E, R, o):
     ent = type(o); out = []
     AJ = E.attr_json
     for a in ent._attrs_:
+        if a.is_discriminator: continue     # class constant: `__get__` returns the class's value, `__set__` always raises TypeError, `load` is never called
         if not a.is_collection:
             out.append(({'k': 'getAttr', 'attr': AJ(a)}, (lambda a=a: getattr(o, a.name)), 'read'))
             out.append(({'k': 'attrLoad', 'attr': AJ(a)}, (lambda a=a: a.load(o) and None), 'load'))
+            if a.py_type is Json:
+                out.append(({'k': 'attrChanged', 'attr': AJ(a)}, (lambda a=a: o._attr_changed_(a)), 'mutate'))
             if a.pk_offset is None:
                 newv = 99
                 if a.reverse:
@@ -295,7 +327,13 @@ def ops_for(E, R, o):
             out.append(({'k': 'collAssign', 'attr': AJ(a), 'same': False}, (lambda a=a, arg=arg: setattr(o, a.name, arg)), 'mutate'))
             out.append(({'k': 'collAdd', 'attr': AJ(a)}, (lambda w=w, arg=arg: w.add(arg)), 'mutate'))
             out.append(({'k': 'collRemove', 'attr': AJ(a)}, (lambda w=w, arg=arg: w.remove(arg)), 'mutate'))
+            out.append(({'k': 'collAdd', 'attr': AJ(a), 'via': 'iadd'}, (lambda w=w, arg=arg: w.__iadd__(arg) and None), 'mutate'))
+            out.append(({'k': 'collRemove', 'attr': AJ(a), 'via': 'isub'}, (lambda w=w, arg=arg: w.__isub__(arg) and None), 'mutate'))
             out.append(({'k': 'collClear', 'attr': AJ(a)}, (lambda w=w: w.clear()), 'mutate'))
+            out.append(({'k': 'collStr', 'attr': AJ(a)}, (lambda w=w: str(w)), 'other'))
+            kw = {[x for x in a.py_type._attrs_ if not x.is_collection and x.pk_offset is None and not x.reverse and x.is_required][0].name: 1} \
+                 if [x for x in a.py_type._attrs_ if not x.is_collection and x.pk_offset is None and not x.reverse and x.is_required] else {}
+            out.append(({'k': 'collCreate', 'attr': AJ(a)}, (lambda w=w, kw=kw: w.create(**kw) and None), 'newobj'))
             out.append(({'k': 'collCopy', 'attr': AJ(a)}, (lambda w=w: w.copy()), 'read'))
             out.append(({'k': 'collCopy', 'attr': AJ(a), 'via': 'iter'}, (lambda w=w: set(iter(w))), 'read'))
             out.append(({'k': 'collLen', 'attr': AJ(a)}, (lambda w=w: len(w)), 'read'))
@@ -305,7 +343,10 @@ def ops_for(E, R, o):
                 out.append(({'k': 'collContains', 'attr': AJ(a), 'item': R.idx(it)}, (lambda w=w, it=it: it in w), 'read'))
             out.append(({'k': 'collLoad', 'attr': AJ(a)}, (lambda w=w: w.load()), 'load'))
             out.append(({'k': 'collSelect', 'attr': AJ(a)}, (lambda w=w: w.select()), 'query'))
-    out.append(({'k': 'setMany'}, (lambda: o.set(**{[a for a in ent._attrs_ if not a.is_collection and a.pk_offset is None and not a.reverse][0].name: 98})), 'mutate'))
+    plain = [a for a in ent._attrs_ if not a.is_collection and a.pk_offset is None and not a.reverse and not a.is_discriminator and a.py_type is int]
+    refs = [a for a in ent._attrs_ if not a.is_collection and a.pk_offset is None and a.reverse]
+    kw = {plain[0].name: 98} if plain else {refs[0].name: ([x for x in R.objs if isinstance(x, refs[0].py_type)] or [None])[0]}
+    out.append(({'k': 'setMany'}, (lambda kw=kw: o.set(**kw)), 'mutate'))
     out.append(({'k': 'delete'}, (lambda: o.delete()), 'mutate'))
     out.append(({'k': 'flush'}, (lambda: o.flush()), 'flush'))
     out.append(({'k': 'load'}, (lambda: o.load()), 'load'))
@@ -315,8 +356,9 @@ def ops_for(E, R, o):
         out.append(({'k': 'toDict', 'attrs': [AJ(a) for a in attrs], 'wc': wc},
                     (lambda wc=wc, wl=wl, attrs=attrs: ('dict', attrs, o.to_dict(with_collections=wc, with_lazy=wl, related_objects=True))), 'read'))
     G, I, T = E.G, E.I, E.T
-    if ent is G: mk = lambda: I(g=o)
+    if isinstance(o, G): mk = lambda: I(g=o)
     elif ent is I: mk = lambda: G(a=1, items=[o])
+    elif ent is E.O: mk = lambda: G(a=1, one=o)
     else: mk = lambda: G(a=1, tags=[o])
     out.append(({'k': 'useAsRef'}, (lambda: mk() and None), 'newobj'))
     return out
@@ -337,7 +379,8 @@ def canon_value(R, v):
     if isinstance(v, (set, frozenset, list, tuple)): return {'items': sorted(R.idx(x) for x in v)}
     if isinstance(v, core.SetInstance): return 'wrapper'
     if isinstance(v, core.Query): return 'query'
-    raise TypeError('unexpected result %r' % (v,))
+    if isinstance(v, str) and v.endswith('([...])'): return '...'
+    return R.E.atom(v if not hasattr(v, 'get_untracked') else v.get_untracked())
 
 def canon_model_out(out):
     out = json.loads(json.dumps(out))
@@ -375,13 +418,18 @@ def real_outcome(R, fn, kind):
 DEL = ('marked_to_delete', 'deleted', 'cancelled')
 WRITE_KINDS = ('insert', 'update', 'delete', 'ddl', 'other')
 
-def held_in_memory(pre_obj, op):
+def held_in_memory(pre_obj, op, world=None):
     """is the value the read asks for held in the object (the property's 'values that were loaded')"""
     vals = pre_obj['vals']
     k = op['k']
     if vals is None: return None          # strict: nothing is held
     d = {p[0]: p[1] for p in vals}
-    if k == 'getAttr': return op['attr']['id'] in d
+    if k == 'getAttr':
+        if op['attr']['id'] not in d: return False
+        if op['attr'].get('refSub') and pre_obj['cache'] and isinstance(d[op['attr']['id']], int) and world is not None:
+            t = d[op['attr']['id']]
+            if t < len(world['objs']) and world['objs'][t].get('seed'): return False     # the real class of the target is not known yet
+        return True
     if k in ('collCopy', 'collLen', 'collCount', 'collIsEmpty', 'collContains'):
         sd = d.get(op['attr']['id'])
         return isinstance(sd, dict) and sd['full']
@@ -424,7 +472,7 @@ def oracle(ctx, R, E, case, op, kind, o_i, pre, post, extra_pre, extra_post, out
         if not unchanged:
             viol('flush changed an object of a finished session', 'flush-changed', diff_worlds(pre, post), 'unchanged')
     elif kind == 'read':
-        held = held_in_memory(pre['objs'][o_i], op)
+        held = held_in_memory(pre['objs'][o_i], op, pre)
         if selects:
             viol('a read on an object of a finished session queried the database instead of raising a session-is-over error',
                  'read-sql:%s' % k, {'out': out, 'sql': [e['sql'] for e in selects]}, 'DatabaseSessionIsOver')
@@ -448,9 +496,9 @@ def oracle(ctx, R, E, case, op, kind, o_i, pre, post, extra_pre, extra_post, out
         if not err and k != 'collIsEmpty' and not unchanged_mod_rbits:
             viol('a read changed the object of a finished session', 'read-ok-changed:%s' % k, diff_worlds(pre, post), 'unchanged')
     else:
-        if not unchanged and k != 'useAsRef':
+        if not unchanged and k not in ('useAsRef', 'collCreate'):
             viol('an operation changed the object of a finished session', 'other-changed:%s' % k, diff_worlds(pre, post), 'unchanged')
-        if k == 'useAsRef' and (not err or not unchanged):
+        if k in ('useAsRef', 'collCreate') and (not err or not unchanged):
             viol('an object of a finished session was accepted as a reference of a new object', 'useAsRef:%s' % (err or 'no-error'), out, 'TransactionError')
 
 
@@ -612,6 +660,20 @@ def witnesses(ctx, E):
                       observed={'first': before, 'count()': r, 'second': after}, expected='the same answer', key='read-changed:collCount')
 
 
+def witness_json(ctx, E):
+    """in-place change of a Json value held by an object of a finished session: TrackedValue -> Entity._attr_changed_"""
+    E.reset()
+    with db_session: g = E.G[1]; g.data
+    before = json.dumps(g.data.get_untracked(), sort_keys=True)
+    try: g.data['k'] = 5; r = 'no error'
+    except core.DatabaseSessionIsOver: r = 'DatabaseSessionIsOver'
+    except Exception as e: r = type(e).__name__
+    ctx.case(['witness', 'json-in-place'], kind='witness')
+    if r != 'DatabaseSessionIsOver':
+        ctx.violation('an in-place change of a Json value of an object of a finished session was not refused', {'script': 'with db_session: g = G[1]; g.data', 'op': "g.data['k'] = 5"},
+                      observed=r, expected='DatabaseSessionIsOver', key='mutate:json-in-place:%s' % r)
+
+
 def run(ctx):
     work = ponyutil.workdir('c32')
     E = Env(os.path.join(work, 'c32.sqlite'))
@@ -620,6 +682,7 @@ def run(ctx):
         pending = explore(ctx, E, scripts, [False, True], [False, True], target_limit=None if ctx.thorough else 5)
         check_model(ctx, pending)
         witnesses(ctx, E)
+        witness_json(ctx, E)
         ctx.extra['violation_keys'] = sorted(v['key'] for v in ctx.violations)
         ctx.extra['sessions'] = sum(v for k, v in ctx.counters.items() if k.startswith('ending:'))
     finally:
